@@ -1,6 +1,14 @@
 """C02 — every frame-to-frame assignment is the global optimum.
 
-Two streams:
+Three streams:
+  iter   : FUNCTION MODE for the three solver loops.  The real `SubnetLinker(list)`,
+           `nonrecursive_link(list)` and `numba_link(list)` (+ the kernel `_numba_subnet_norecur`
+           it calls) are run on Python LISTS of real Point objects (deterministic order) and
+           compared with the models `solve` (`RECUR`), `nonrecFuel` (`NONREC`), `numbaLoop`
+           (`NUMBA`) of Model/AssignIter.lean: same source order after the stable sort, same
+           ASSIGNMENT (ties included), same number of loop iterations (`loopcount` of the kernel;
+           reads of `cur_sum_stack[-1]` for `nonrecursive_link`).  The models are PROVED equal to /
+           cost-equal with the proven-optimal `solveOrdered` (Props/C02Iter).
   solver : random candidate graphs (exact ties frequent) through the real
            `subnet_linker_recursive/_nonrecursive/_numba(hybrid on/off)`; the model (`SOLVE`,
            proven optimal: Props/C02 `solveOrdered_optimal`) gives the optimum, the driver's proven
@@ -19,12 +27,20 @@ from . import common
 from .common import Result
 
 PROP = "C02"
-RULE = ("solver stream: 1-8 sources x 1-8 destinations, 1-5 candidates per source, distances k/8 "
+RULE = ("iter stream: the same random graphs as the solver stream given as LISTS in a random order "
+        "(plus the exhaustive family <=3 sources x 3 destinations x distances {1,2}, and rows of 9-10 "
+        "candidates around the numba cap); non-trivial = contested; "
+        "solver stream: 1-8 sources x 1-8 destinations, 1-5 candidates per source, distances k/8 "
         "from a small range (ties frequent), max_size swept around the sub-net size; step stream: "
         "integer-lattice movies with planted disappear/reappear histories.  Non-trivial = "
         "contested (>=2 sources and >=2 candidates somewhere) for the solver stream, >=1 contested "
         "sub-net or memory re-link for the step stream; distinct = distinct canonical input.")
 ASSUMPTIONS = [
+    "iter stream: the number of iterations of nonrecursive_link's while-loop is observed by "
+    "substituting a counting subclass for `deque` in the module namespace (one read of "
+    "cur_sum_stack[-1] per iteration); the kernel's loopcount is its own return value, captured by "
+    "wrapping the module attribute; best_sum = 1e23 of the kernel is +infinity in the model "
+    "(total cost < 1e23)",
     "costs are exact: distances are k/8 so dist**2 is exact in float64; float accumulation error "
     "in cur_sum (~1e-13) cannot reorder assignments whose exact costs differ by >= 1/64",
     "numba kernels run interpreted (numba is not installed); sources with > 8 real candidates are "
@@ -71,8 +87,47 @@ def gen_graph(rng, big=False):
     return dict(stream="solver", srcs=srcs, R=R, ndest=len(used))
 
 
+def exh_opts():
+    opts = []
+    for r in range(1, 4):
+        for ds in itertools.combinations(range(3), r):
+            for dist in itertools.product([1, 2], repeat=r):
+                opts.append(sorted(zip(dist, ds)))
+    return opts
+
+
+def gen_iter_cases(ctx):
+    # exhaustive family: <=2 sources always, 3 sources in the thorough tier
+    opts = exh_opts()
+    for ns in ((1, 2, 3) if ctx.thorough else (1, 2)):
+        for combo in itertools.product(opts, repeat=ns):
+            yield dict(stream="iter", srcs=[[[d, dist] for dist, d in c] for c in combo], R=2,
+                       family="exh3")
+    n = ctx.n(1500, 30000)
+    for i in range(n):
+        rng = ctx.rng("iter", i)
+        if i % 25 == 24:
+            # rows of 8..10 entries (incl. null) around the kernel's 9-candidate cap
+            ns = rng.randint(1, 3)
+            R = rng.choice([4, 8])
+            srcs = []
+            for j in range(ns):
+                k = rng.choice([7, 8, 9]) if j == 0 else rng.randint(1, 4)
+                ds = rng.sample(range(10), k)
+                srcs.append([[d, dist] for dist, d in sorted((rng.randint(1, R), d) for d in ds)])
+            rng.shuffle(srcs)
+            yield dict(stream="iter", srcs=srcs, R=R, family="cap")
+            continue
+        g = gen_graph(rng, big=(i % 10 == 9))
+        g["stream"] = "iter"
+        rng.shuffle(g["srcs"])
+        yield g
+
+
 def gen_cases(ctx):
     for inp in ctx.corpus():
+        yield inp
+    for inp in gen_iter_cases(ctx):
         yield inp
     # exhaustive family (thorough): <=3 sources, destinations {0,1,2}, each source's candidate set
     # any non-empty subset with distances in {1,2} (units 1/8), R = 2
@@ -256,8 +311,235 @@ def run_solver_case(ctx, inp):
     return res
 
 
+# ------------------------------------------------------------------------------------------
+# iter stream: the three loops in function mode
+
+class _Timeout(Exception):
+    pass
+
+
+MAX_ITERS = {"numba": 20000, "nonrecursive": 50000, "recursive": 50000}   # see run_iter_case
+
+
+def _guarded(fn, seconds=120):
+    """run fn() with an alarm (a mutated loop may not terminate)"""
+    import signal
+
+    def _h(signum, frame):
+        raise _Timeout()
+    try:
+        old = signal.signal(signal.SIGALRM, _h)
+        signal.setitimer(signal.ITIMER_REAL, seconds)
+    except (ValueError, AttributeError):
+        return fn()
+    try:
+        return fn()
+    finally:
+        signal.setitimer(signal.ITIMER_REAL, 0)
+        signal.signal(signal.SIGALRM, old)
+
+
+def run_iter_impls(inp, skip=()):
+    """-> dict name -> ('ok', order, chosen, iters|None) | ('oversize',) | ('exception', repr)
+    order = input indices of the sources in the order the function uses/returns them,
+    chosen = destination index or None per entry of `order`."""
+    import collections
+    from trackpy.linking import subnetlinker as sl
+    from trackpy.linking.utils import Point, SubnetOversizeException
+    if hasattr(Point, "reset_counter"):
+        Point.reset_counter()
+    srcs, R8 = inp["srcs"], inp["R"]
+    nd = 1 + max([d for s in srcs for d, _ in s], default=-1)
+    dps = [Point(1, np.array([float(i), 0.0])) for i in range(nd)]
+    sps = [Point(0, np.array([float(i), 1.0])) for i in range(len(srcs))]
+    for sp, s in zip(sps, srcs):
+        sp.forward_cands = [(dps[d], dist / 8.0) for d, dist in s] + [(None, R8 / 8.0)]
+    idx_s = {id(p): i for i, p in enumerate(sps)}
+    idx_d = {id(p): i for i, p in enumerate(dps)}
+    dd = lambda d: None if d is None else idx_d[id(d)]
+    out = {}
+
+    def call(name, fn):
+        try:
+            out[name] = _guarded(fn)
+        except SubnetOversizeException:
+            out[name] = ("oversize",)
+        except _Timeout:
+            out[name] = ("exception", "no termination within 120 s although the model needs "
+                                      "< %d loop iterations" % MAX_ITERS[name])
+        except Exception as e:                                  # judged by the caller
+            out[name] = ("exception", "%s: %s" % (type(e).__name__, e))
+
+    def recur():
+        snl = sl.SubnetLinker(list(sps), nd, R8 / 8.0, max_size=30)
+        if snl.best_pairs is None:
+            return ("ok", [idx_s[id(p)] for p in snl.s_lst], None, None)
+        return ("ok", [idx_s[id(p)] for p, _ in snl.best_pairs],
+                [dd(d) for _, d in snl.best_pairs], None)
+
+    def nonrec():
+        made = []
+
+        class CountDeque(collections.deque):
+            def __init__(self, *a):
+                super().__init__(*a)
+                self.n_get = 0
+                made.append(self)
+
+            def __getitem__(self, i):
+                self.n_get += 1
+                return super().__getitem__(i)
+        orig = sl.deque
+        sl.deque = CountDeque
+        try:
+            spl, back = sl.nonrecursive_link(list(sps), nd, R8 / 8.0, max_size=30)
+        finally:
+            sl.deque = orig
+        iters = made[2].n_get if len(made) == 3 else None       # k_stack, cur_back, cur_sum_stack
+        return ("ok", [idx_s[id(p)] for p in spl], None if back is None else [dd(d) for d in back],
+                iters)
+
+    def numba():
+        counts = []
+        orig = sl._numba_subnet_norecur
+
+        def wrapped(*a):
+            r = orig(*a)
+            counts.append(int(r))
+            return r
+        sl._numba_subnet_norecur = wrapped
+        try:
+            spl, dpl = sl.numba_link(list(sps), nd, R8 / 8.0, max_size=30)
+        finally:
+            sl._numba_subnet_norecur = orig
+        return ("ok", [idx_s[id(p)] for p in spl], [dd(d) for d in dpl],
+                counts[0] if len(counts) == 1 else None)
+
+    for name, fn in (("recursive", recur), ("nonrecursive", nonrec), ("numba", numba)):
+        if name in skip:
+            out[name] = ("skipped",)
+        else:
+            call(name, fn)
+    return out
+
+
+def py_judge(srcs, R, order, chosen):
+    """independent judgement of an implementation's answer: None if admissible, else a message;
+    and its exact cost"""
+    if chosen is None:
+        return "no assignment returned", None
+    if sorted(order) != list(range(len(srcs))) or len(chosen) != len(order):
+        return "sources missing or repeated", None
+    cost, used = 0, set()
+    for i, d in zip(order, chosen):
+        if d is None:
+            cost += R * R
+            continue
+        dist = dict((dd, di) for dd, di in srcs[i]).get(d)
+        if dist is None:
+            return "source %d linked to non-candidate %d" % (i, d), None
+        if d in used:
+            return "destination %d used twice" % d, None
+        used.add(d)
+        cost += dist * dist
+    return None, cost
+
+
+def run_iter_case(ctx, inp):
+    res = Result()
+    srcs, R = inp["srcs"], inp["R"]
+    ns = len(srcs)
+    res.nontrivial = ns >= 2 and any(len(s) >= 2 for s in srcs)
+    line = src_line(srcs, R)
+    res.stat("iter_cases")
+    if inp.get("family"):
+        res.stat("iter_family_" + inp["family"])
+    models = {"recursive": ctx.ask("RECUR " + line), "nonrecursive": ctx.ask("NONREC " + line),
+              "numba": ctx.ask("NUMBA " + line)}
+    # the interpreted loops cost 5-50 us per iteration: inputs on which the (native) model needs
+    # more than MAX_ITERS iterations are not run through that loop (counted, never judged)
+    skip = set()
+    for name, mname in (("numba", "numba"), ("nonrecursive", "nonrecursive"),
+                        ("recursive", "nonrecursive")):
+        it = common.kv(models[mname]).get("iters")
+        if it is not None and int(it) > MAX_ITERS[name]:
+            skip.add(name)
+            res.stat("iter_skipped_long_" + name)
+    impl = run_iter_impls(inp, skip)
+    ocost = None
+    first_assign = {}
+    for name in ("recursive", "nonrecursive", "numba"):
+        mraw = models[name]
+        out = impl[name]
+        if out[0] == "skipped":
+            continue
+        if mraw in ("bad-op", "bad-perm", "nofuel", "none") or mraw.startswith("none"):
+            res.violation("harness-error", "%s model answered %r" % (name, mraw))
+            continue
+        if mraw == "oversize":
+            res.stat("iter_numba_cap")
+            if out[0] != "oversize":
+                res.violation("correspondence-break",
+                              "numba_link: model says >9 candidates (oversize), implementation %r"
+                              % (out,), impl=out, model=mraw, broken="numbaCapOK",
+                              signature=dict(stream="iter", what="cap", solver=name))
+            continue
+        m = common.kv(mraw)
+        massign = [None if t == "n" else int(t) for t in m["assign"].split(",")]
+        morder = [int(t) for t in m["perm"].split(",")] if "perm" in m else list(range(ns))
+        miters = int(m["iters"]) if "iters" in m else None
+        mcost = int(m["cost"])
+        if out[0] != "ok":
+            res.violation("property-violation",
+                          "%s returned no assignment (%s); the optimum has cost %d/64"
+                          % (name, out[1] if len(out) > 1 else out[0], mcost), impl=out, model=m,
+                          signature=dict(stream="iter", what="no-answer", solver=name))
+            continue
+        _, order, chosen, iters = out
+        if order == morder and chosen == massign and (iters == miters or miters is None
+                                                      or iters is None):
+            res.stat("iter_agree_" + name)
+            first_assign[name] = dict(zip(order, chosen))
+            if miters is not None and iters is not None:
+                res.stat("iter_loopcount_compared")
+                res.stat("iter_loop_iterations", iters)
+            continue
+        # disagreement: first the direct oracle (independent of the Lean model)
+        if ocost is None:
+            ocost = oracle_opt_cost(srcs, R)
+        bad, cost = py_judge(srcs, R, order, chosen)
+        if bad is not None or cost != ocost:
+            res.violation("property-violation",
+                          "%s: %s (independent optimum %d/64)"
+                          % (name, bad or ("cost %d/64 is not optimal" % cost), ocost),
+                          impl=dict(order=order, chosen=chosen), model=m,
+                          signature=dict(stream="iter", what="non-optimal", solver=name))
+            continue
+        what = ("order" if order != morder else
+                "tie-choice" if chosen != massign else "iterations")
+        res.violation("correspondence-break",
+                      "%s: optimal, but %s differs from the model (impl order=%s chosen=%s iters=%s)"
+                      % (name, what, order, chosen, iters),
+                      impl=dict(order=order, chosen=chosen, iters=iters), model=m,
+                      broken={"recursive": "solve", "nonrecursive": "nonrecFuel / nonrec_eq_solve",
+                              "numba": "numbaLoop / numba_eq_solveL"}[name],
+                      signature=dict(stream="iter", what=what, solver=name))
+    if "recursive" in first_assign and "numba" in first_assign:
+        res.stat("iter_numba_tie_choice_differs"
+                 if first_assign["recursive"] != first_assign["numba"] else "iter_numba_same_as_recur")
+    if "recursive" in first_assign and "nonrecursive" in first_assign \
+            and first_assign["recursive"] != first_assign["nonrecursive"]:
+        # nonrec_eq_solve says this cannot happen when both agree with their models
+        res.violation("harness-error", "recursive and nonrecursive models disagree")
+    if res.nontrivial and not res.viol:
+        res.sample = dict(input=dict(srcs=srcs, R=R), model=models)
+    return res
+
+
 def run_case(ctx, inp):
     if inp.get("stream") == "solver":
         return run_solver_case(ctx, inp)
+    if inp.get("stream") == "iter":
+        return run_iter_case(ctx, inp)
     from . import linkcommon
     return linkcommon.run_movie_case(ctx, inp, want=("valid", "optimal"), prop="C02")
